@@ -1,10 +1,11 @@
 (* Props/C14.v — property theorems only; proofs live in Proofs/C14Reader.v (reader refines a
    flat decoder), Proofs/C14Writer.v (what the writer emits), Proofs/C14Layout.v,
    Proofs/C14Roundtrip.v and Proofs/C14Double.v; the model is Model/Msg.v (+ Model/Double.v). *)
-From Coq Require Import List NArith ZArith Bool QArith.
+From Coq Require Import List NArith ZArith Bool QArith Reals.
+From Flocq Require Import Core IEEE754.BinarySingleNaN.
 From Cedar Require Import Lib.Bytes gen.Consts Model.Msg Model.Double
      Proofs.C14Reader Proofs.C14Writer Proofs.C14Layout Proofs.C14Roundtrip
-     Proofs.C14DoubleExact Proofs.C14Double.
+     Proofs.C14DoubleExact Proofs.C14Double Proofs.C14DoubleReal.
 Import ListNotations.
 Local Open Scope Z_scope.
 
@@ -203,6 +204,22 @@ Theorem C14_double_layout :
     - 2 ^ 31 <= fi < 2 ^ 31 /\ - 2 ^ 31 <= e < 2 ^ 31.
 Proof. exact double_layout. Qed.
 Print Assumptions C14_double_layout.
+
+(* what the two integers are, over the reals: for EVERY finite non-zero double d,
+   d = fr * 2^exp with fr a binary64 value, 1/2 <= |fr| < 1, exp in [-1073, 1024] (so the
+   int32 conversion of exp is exact), and fracInt = trunc (RN (fr * (2^31-1))), RN = IEEE
+   round-to-nearest-even into binary64: "fraction scaled by 2^31-1, and binary exponent" *)
+Theorem C14_double_ints_meaning :
+  forall d : b64,
+    is_finite_strict d = true ->
+    exists fr : b64,
+      (/ 2 <= Rabs (B2R fr) < 1)%R /\
+      B2R d = (B2R fr * bpow radix2 (snd (double_ints d)))%R /\
+      - 1073 <= snd (double_ints d) <= 1024 /\
+      fst (double_ints d) =
+        Ztrunc (round radix2 (FLT_exp (-1074) 53) ZnearestE (B2R fr * IZR (2 ^ 31 - 1))).
+Proof. exact double_ints_real. Qed.
+Print Assumptions C14_double_ints_meaning.
 
 (* the scaling constant regenerated from the source is the format's 2^31 - 1 *)
 Theorem C14_double_constant : Z.of_N FracConst = 2 ^ 31 - 1.
